@@ -724,7 +724,7 @@ Proof.
   assert (HL : 0 <= rlen r) by (unfold rlen; lia).
   assert (H1 : (0 <? from) = true) by (apply Z.ltb_lt; lia). rewrite H1.
   set (f0 := from - 1).
-  assert (E1 : (if f0 <? 0 then rlen r + f0 + 1 else if 0 <? f0 then f0 else 0) = f0).
+  assert (E1 : (if f0 <? 0 then rlen r + f0 else if 0 <? f0 then f0 else 0) = f0).
   { destruct (f0 <? 0) eqn:E; [apply Z.ltb_lt in E; unfold f0 in E; lia|].
     destruct (0 <? f0) eqn:E2; [reflexivity|]. apply Z.ltb_ge in E2; apply Z.ltb_ge in E; lia. }
   rewrite E1.
@@ -750,6 +750,72 @@ Proof.
     replace (t - f0) with (t - from + 1) by (unfold f0; lia). reflexivity.
   - apply Z.leb_gt in E.
     replace (t <=? f0) with true by (symmetry; apply Z.leb_le; unfold f0; lia). reflexivity.
+Qed.
+
+(** --cut from:to for EVERY sign of the bounds (after the fix of the negative start): the first base kept is `from` for
+    from > 0 and length + from + 1 for from < 0 (-1 = the last base), never before base 1 *)
+Definition cut_start (from L : Z) : Z := if 0 <? from then from else Z.max 1 (L + from + 1).
+Definition cut_spec_signed (from to : Z) (r : arec) : option arec :=
+  let s := cut_start from (rlen r) in
+  let t := cut_end to (rlen r) in
+  if s <=? t then
+    Some (mkr (append (rid r) (append "_sub[" (append (show_Z s) (append ".." (append (show_Z t) "]")))))
+              (rattrs r)
+              (String.substring (Z.to_nat (s - 1)) (Z.to_nat (t - s + 1)) (rseq r)))
+  else None.
+Lemma cut_spec_signed_positive : forall from to r, 0 < from -> cut_spec_signed from to r = cut_spec from to r.
+Proof.
+  intros from to r Hf. unfold cut_spec_signed, cut_spec, cut_start.
+  replace (0 <? from) with true by (symmetry; apply Z.ltb_lt; lia). reflexivity.
+Qed.
+Theorem cut_signed : forall from to r, from <> 0 -> to <> 0 -> e_cut from to r = cut_spec_signed from to r.
+Proof.
+  intros from to r Hf Ht.
+  destruct (Z.ltb_spec 0 from) as [Hp|Hn].
+  - rewrite cut_spec_signed_positive by exact Hp. apply cut_positive; assumption.
+  - assert (Hneg : from < 0) by lia.
+    unfold e_cut, cut_spec_signed, cut_start. cbv zeta.
+    assert (HL : 0 <= rlen r) by (unfold rlen; lia).
+    replace (0 <? from) with false by (symmetry; apply Z.ltb_ge; lia).
+    replace (from <? 0) with true by (symmetry; apply Z.ltb_lt; lia).
+    set (L := rlen r) in *.
+    set (f0 := if L + from <? 0 then 0 else L + from).
+    assert (Ef : f0 = Z.max 1 (L + from + 1) - 1).
+    { unfold f0. destruct (Z.ltb_spec (L + from) 0); lia. }
+    assert (E4 : (let t0 := if to <? 0 then L + to + 1 else if 0 <? to then to else 0 in
+                  if L <=? t0 then L else t0) = cut_end to L).
+    { unfold cut_end. cbv zeta. destruct (to <? 0) eqn:E.
+      - apply Z.ltb_lt in E. replace (0 <? to) with false by (symmetry; apply Z.ltb_ge; lia).
+        destruct (L <=? L + to + 1) eqn:E5; [apply Z.leb_le in E5; lia|reflexivity].
+      - apply Z.ltb_ge in E. replace (0 <? to) with true by (symmetry; apply Z.ltb_lt; lia).
+        destruct (L <=? to) eqn:E5; [apply Z.leb_le in E5; lia|apply Z.leb_gt in E5; lia]. }
+    cbv zeta in E4. rewrite E4. set (t := cut_end to L).
+    assert (Ht' : t <= L) by (unfold t, cut_end; destruct (0 <? to) eqn:E9; [lia|apply Z.ltb_ge in E9; lia]).
+    set (s := Z.max 1 (L + from + 1)) in *.
+    assert (Hs : 1 <= s) by (unfold s; lia).
+    destruct (s <=? t) eqn:E.
+    + apply Z.leb_le in E.
+      replace (t <=? f0) with false by (symmetry; apply Z.leb_gt; lia).
+      replace (f0 <? 0) with false by (symmetry; apply Z.ltb_ge; lia).
+      replace (L <=? f0) with false by (symmetry; apply Z.leb_gt; lia).
+      replace (L <? t) with false by (symmetry; apply Z.ltb_ge; lia).
+      replace (f0 + 1) with s by lia. replace (t - f0) with (t - s + 1) by lia.
+      replace (s - 1) with f0 by lia. reflexivity.
+    + apply Z.leb_gt in E.
+      replace (t <=? f0) with true by (symmetry; apply Z.leb_le; lia). reflexivity.
+Qed.
+(** the bases kept are those at the 1-based positions cut_start .. cut_end, inside the sequence *)
+Lemma cut_signed_range : forall from to r r', from <> 0 -> to <> 0 -> e_cut from to r = Some r' ->
+  1 <= cut_start from (rlen r) <= cut_end to (rlen r) /\ cut_end to (rlen r) <= rlen r /\
+  rattrs r' = rattrs r.
+Proof.
+  intros from to r r' Hf Ht H. rewrite cut_signed in H by assumption. unfold cut_spec_signed in H. cbv zeta in H.
+  assert (HL : 0 <= rlen r) by (unfold rlen; lia).
+  destruct (cut_start from (rlen r) <=? cut_end to (rlen r)) eqn:E; [|discriminate].
+  apply Z.leb_le in E. injection H as H; subst r'. cbn [rattrs].
+  repeat split; try assumption.
+  - unfold cut_start. destruct (Z.ltb_spec 0 from); lia.
+  - unfold cut_end. destruct (Z.ltb_spec 0 to); lia.
 Qed.
 
 (** * the same loops at the level of batches: what is pushed, batch by batch, flattens to the record-level streams *)
@@ -1107,4 +1173,93 @@ Lemma c_sciname_frame : frame (fun k => String.eqb k "scienctific_name") c_set_s
 Proof.
   intros r. unfold c_set_sciname; simpl. split; [reflexivity|]. split; [reflexivity|].
   intros k Hk. apply lookup_set_ne; exact Hk.
+Qed.
+
+(** * Round 3: command-level corollaries *)
+(** obidistribute --append: two runs (inputs bs1 then bs2, possibly different batch sizes) append to the same files; the
+    file of class k then holds what ONE run on the concatenated input would have written to it *)
+Lemma distribute_append : forall (A K : Type) (keq : K -> K -> bool) (code : A -> K) (n1 n2 n : nat),
+  (forall a b, keq a b = true <-> a = b) ->
+  forall bs1 bs2 k,
+    List.concat (get_out A K keq k (distribute_batches A K keq code n1 bs1)) ++
+    List.concat (get_out A K keq k (distribute_batches A K keq code n2 bs2)) =
+    List.concat (get_out A K keq k (distribute_batches A K keq code n (bs1 ++ bs2))).
+Proof.
+  intros A K keq code n1 n2 n Hk bs1 bs2 k.
+  rewrite !(distribute_batches_flat A K keq code _ Hk). rewrite concat_app, filter_app. reflexivity.
+Qed.
+(** obimultiplex without -u: `out.FilterOn(HasAttribute("obimultiplex_error").Not())` writes exactly what the run with
+    -u (`DivideOn(HasAttribute("obimultiplex_error"))`, second stream) writes on stdout, whatever the two batch sizes *)
+Lemma filteron_not_is_divide_snd : forall (A : Type) (n m : nat) (err : A -> bool) bs,
+  List.concat (rebatch A n (filter_batches A (fun x => negb (err x)) bs)) = List.concat (snd (divide_batches A m err bs)).
+Proof.
+  intros A n m err bs. rewrite filteron_records. destruct (divide_batches_flat A m err bs) as [_ H]. rewrite H. reflexivity.
+Qed.
+Lemma mux_without_unidentified : forall (n m : nat) (bs : list (list arec)),
+  let err := fun r : arec => has_key "obimultiplex_error" (rattrs r) in
+  List.concat (rebatch arec n (filter_batches arec (holds (p_not (Some err))) bs)) = List.concat (snd (divide_batches arec m err bs)) /\
+  Permutation (List.concat (fst (divide_batches arec m err bs)) ++ List.concat (rebatch arec n (filter_batches arec (holds (p_not (Some err))) bs))) (List.concat bs).
+Proof.
+  intros n m bs err. split.
+  - exact (filteron_not_is_divide_snd arec n m err bs).
+  - change (holds (p_not (Some err))) with (fun r => negb (err r)).
+    rewrite filteron_records. destruct (divide_batches_flat arec m err bs) as [H1 _]. rewrite H1.
+    generalize (List.concat bs). intro l. induction l as [|x l IH]; [constructor|].
+    simpl. destruct (err x); simpl.
+    + constructor. exact IH.
+    + apply Permutation_sym, Permutation_cons_app, Permutation_sym. exact IH.
+Qed.
+
+(** several input files read with --no-order: the files (each the list of its records) may be taken in any order; what a
+    per-record selection keeps / a per-record edit writes is the same multiset of records *)
+Lemma filter_perm : forall A (p : A -> bool) l l', Permutation l l' -> Permutation (filter p l) (filter p l').
+Proof.
+  intros A p l l' H. induction H as [|x l l' H IH|x y l|l l' l'' H1 IH1 H2 IH2]; simpl.
+  - constructor.
+  - destruct (p x); [constructor|]; exact IH.
+  - destruct (p x), (p y); try apply Permutation_refl. apply perm_swap.
+  - eapply Permutation_trans; eassumption.
+Qed.
+Lemma concat_perm : forall A (ls ls' : list (list A)), Permutation ls ls' -> Permutation (List.concat ls) (List.concat ls').
+Proof.
+  intros A ls ls' H. induction H as [|x l l' H IH|x y l|l l' l'' H1 IH1 H2 IH2]; simpl.
+  - constructor.
+  - apply Permutation_app_head. exact IH.
+  - rewrite !app_assoc. apply Permutation_app_tail. apply Permutation_app_comm.
+  - eapply Permutation_trans; eassumption.
+Qed.
+Lemma flat_map_perm : forall A B (f : A -> list B) l l', Permutation l l' -> Permutation (flat_map f l) (flat_map f l').
+Proof.
+  intros A B f l l' H. induction H as [|x l l' H IH|x y l|l l' l'' H1 IH1 H2 IH2]; simpl.
+  - constructor.
+  - apply Permutation_app_head. exact IH.
+  - rewrite !app_assoc. apply Permutation_app_tail. apply Permutation_app_comm.
+  - eapply Permutation_trans; eassumption.
+Qed.
+Lemma files_any_order : forall A B (p : A -> bool) (f : A -> list B) (files files' : list (list A)),
+  Permutation files files' ->
+  Permutation (filter p (List.concat files')) (filter p (List.concat files)) /\
+  Permutation (filter (fun x => negb (p x)) (List.concat files')) (filter (fun x => negb (p x)) (List.concat files)) /\
+  Permutation (flat_map f (List.concat files')) (flat_map f (List.concat files)).
+Proof.
+  intros A B p f files files' H. apply Permutation_sym in H. apply concat_perm in H.
+  repeat split; [apply filter_perm|apply filter_perm|apply flat_map_perm]; exact H.
+Qed.
+
+(** an edit that cannot be computed: `-S a=annotations.k` alone (the concrete expression instance of the correspondence)
+    discards exactly the records without attribute k and copies the value on the others *)
+Lemma set_tag_from_attribute : forall (a k : string) (r : arec),
+  String.eqb a "id" = false -> String.eqb a "sequence" = false -> String.eqb a "qualities" = false ->
+  c_impl_annot (mka false None [] [] [] false [(a, EAttr k)] None) r =
+  match lookup k (rattrs r) with
+  | Some v => [set_attrs r (set_key a v (rattrs r))]
+  | None => []
+  end.
+Proof.
+  intros a k r H1 H2 H3.
+  unfold c_impl_annot, impl_annot, impl_worker, mka, mka2, annot_steps, has_cut, eval_attr_worker.
+  cbn [aclear asetid adelete akeep arename ataxrank apath atrank asciname alca alength asettag aaho acut apattern String.eqb Ascii.eqb negb fold_left chain].
+  unfold partial, e_settag. cbn [snd fst vexpr_eval].
+  destruct (lookup k (rattrs r)) as [v|]; [|reflexivity].
+  unfold set_attr. rewrite H1, H2, H3. reflexivity.
 Qed.
